@@ -13,6 +13,8 @@ import shutil
 import sys
 import tempfile
 
+import common
+
 import jinja2
 
 from vinegar.data_source import DataSource
@@ -349,7 +351,7 @@ def _tftp_server():
     if "tftp" not in _servers:
         from vinegar.tftp.server import TftpServer
         front = _TftpFront()
-        srv = TftpServer([front, _TftpFallback()], "::1", 0, default_timeout=2.0, max_retries=1)
+        srv = TftpServer([front, _TftpFallback()], "::1", common.free_udp_port(), default_timeout=2.0, max_retries=1)
         srv.start()
         atexit.register(srv.stop)
         _servers["tftp"] = (srv, front, srv._socket.getsockname()[1])
